@@ -41,7 +41,9 @@ RULE = ("cases = 7 fixed witnesses of finding candidates (tags finding-*) + gene
         "addEdge(rim, hub); all OUT of it; random; alternating), spread-out starts (fine grid / circle), same option draws. "
         "Further crowd topologies (partial wheel, double wheel, K(h,m), hub in a grid, two wheels) and compact starts exist in "
         "the harness (`--mode crowd-open`) but are NOT in the plan: the unchanged library aborts / throws there (see "
-        "tools/briefs/reports/fC14.md). Fixed case counts: 7+160+24 quick, 7+400+64 thorough. A case is non-trivial if doHOLA "
+        "tools/briefs/reports/fC14.md); for the same reason (doHOLA throws 'Nodes do not have cardinal separation!' on about "
+        "0.5% of all crowd cases) the plan's crowd cases are a FIXED battery, the same for every seed (seed-dependent under "
+        "--scale > 1 and in crowd-open). Fixed case counts: 7+160+24 quick, 7+400+64 thorough. A case is non-trivial if doHOLA "
         "moved a node and returned at least one route.")
 TRUSTED_BASE = ["Lean 4.33 kernel", "axioms: propext, Classical.choice, Quot.sound",
                 "compiled driver agrees with the kernel semantics of the checker definitions",
